@@ -201,11 +201,19 @@ func stripEmptyObjects(v lm.JVal) (lm.JVal, bool) {
 func TestWithEqualsCallSite(t *testing.T) {
 	rt.Check(t, 2500, 150000, func(t *rapid.T) {
 		st := setup{kind: rapid.IntRange(0, 2).Draw(t, "handler"), colorful: false, addSource: rapid.Bool().Draw(t, "addSource")}
+		if st.kind != lm.HJson {
+			// colour on for the two line formats (a coloured JSON line is not JSON any more, see C01): what colour does to
+			// a value - AnsiString prefixes, level labels - must be the same whichever way the attribute came in
+			st.colorful = rapid.Bool().Draw(t, "colorful")
+		}
 		ctxChain := lm.GenChain(genOpts, 3).Draw(t, "context")
 		a := lm.GenNodes(genOpts, 3).Draw(t, "a")
 		b := lm.GenNodes(genOpts, 3).Draw(t, "b")
 		if len(a) == 0 {
 			a = []lm.Node{lm.GenNode(genOpts, 1).Draw(t, "a0")}
+		}
+		if rapid.IntRange(0, 3).Draw(t, "ansiInWith") == 0 {
+			a = append(a, lm.Node{Key: "tag", Kind: lm.KAnsi, S: lm.SmallString().Draw(t, "ansi")})
 		}
 		level := rapid.SampledFrom(lm.Levels).Draw(t, "level")
 		msg := lm.SmallString().Draw(t, "msg")
